@@ -85,16 +85,23 @@ func (m *Model) Infer(t *syntax.Transaction) {
 		credit := t.Bookings[i].Credit.Extract()
 		debit := t.Bookings[i].Debit.Extract()
 		if credit == m.account {
-			t.Bookings[i].Credit = m.inferAccount(t, &t.Bookings[i], debit)
+			if account, ok := m.inferAccount(t, &t.Bookings[i], debit); ok {
+				t.Bookings[i].Credit = account
+			}
 		}
 		if debit == m.account {
 			// infer against the credit account as it is now (it may just have been replaced)
-			t.Bookings[i].Debit = m.inferAccount(t, &t.Bookings[i], t.Bookings[i].Credit.Extract())
+			if account, ok := m.inferAccount(t, &t.Bookings[i], t.Bookings[i].Credit.Extract()); ok {
+				t.Bookings[i].Debit = account
+			}
 		}
 	}
 }
 
-func (m *Model) inferAccount(t *syntax.Transaction, b *syntax.Booking, other string) syntax.Account {
+// inferAccount returns the best candidate; ok is false if the model offers no
+// candidate (no training data, or only the other account of the booking), in
+// which case the booking must be left as it is.
+func (m *Model) inferAccount(t *syntax.Transaction, b *syntax.Booking, other string) (account syntax.Account, ok bool) {
 	var (
 		tokens = sortedTokens(tokenize(t, b, other))
 		max    = math.Inf(-1)
@@ -115,11 +122,12 @@ func (m *Model) inferAccount(t *syntax.Transaction, b *syntax.Booking, other str
 		if score > max {
 			best = candidate
 			max = score
+			ok = true
 		}
 	}
 	return syntax.Account{
 		Range: syntax.Range{Start: 0, End: len(best), Text: best},
-	}
+	}, ok
 }
 
 func (m *Model) scoreCandidate(candidate string, tokens []token) float64 {
